@@ -104,7 +104,7 @@ fn main() {
     let t0 = ctx.t0;
     let pname = prop.clone();
     std::thread::spawn(move || loop {
-        std::thread::sleep(std::time::Duration::from_secs(2));
+        crate::common::vclock::real_sleep(std::time::Duration::from_secs(2));
         if common::vclock::raw_now_s() - t0 > cap_s {
             println!("MACHINERY-FAILURE: {pname} exceeded its wall-clock cap of {cap_s} s (hang or runaway search)");
             std::process::exit(2);
